@@ -5,6 +5,7 @@ import (
 	"fmt"
 	"os"
 	"path/filepath"
+	"regexp"
 	"sort"
 	"strings"
 	"time"
@@ -192,7 +193,7 @@ func Check(opts Options) int {
 			confirmed := hc.NoReplay
 			if !hc.NoReplay {
 				nReplayed++
-				res, err := rp.run(scenario{Harness: r.Name, Tier: opts.Tier, Inputs: o.Inputs, Runs: runs}, "")
+				res, err := rp.run(scenario{Harness: r.Name, Tier: opts.Tier, Inputs: o.Inputs, Runs: runs, Race: hc.Race}, "")
 				if err == nil && confirms(o, res) {
 					confirmed = true
 					nConfirmed++
@@ -236,7 +237,7 @@ func Check(opts Options) int {
 				if !hc.NoReplay {
 					nReplayed++
 					var err error
-					res, err = rp.run(scenario{Harness: r.Name, Tier: opts.Tier, Inputs: o.Inputs, Runs: runs}, "")
+					res, err = rp.run(scenario{Harness: r.Name, Tier: opts.Tier, Inputs: o.Inputs, Runs: runs, Race: hc.Race}, "")
 					if err != nil {
 						fmt.Fprintf(os.Stderr, "replay error: %v\n", err)
 					}
@@ -279,7 +280,7 @@ func Check(opts Options) int {
 			validated := false
 			if !hc.NoReplay {
 				nReplayed++
-				res, err := rp.run(scenario{Harness: r.Name, Tier: opts.Tier, Inputs: o.Inputs, Runs: 1}, "")
+				res, err := rp.run(scenario{Harness: r.Name, Tier: opts.Tier, Inputs: o.Inputs, Runs: 1, Race: hc.Race}, "")
 				switch {
 				case err != nil:
 					fmt.Fprintf(os.Stderr, "replay error: %v\n", err)
@@ -371,6 +372,8 @@ func firstLine(s string) string {
 
 // notesDiffer compares the notes of the symbolic path (evaluated under the
 // model) with the native run; it returns the first key whose values differ.
+var ptrRe = regexp.MustCompile(`0x[0-9a-f]{6,}`)
+
 func notesDiffer(symNotes map[string]any, native any) string {
 	nm, ok := native.(map[string]any)
 	if !ok {
@@ -381,7 +384,7 @@ func notesDiffer(symNotes map[string]any, native any) string {
 		if !ok {
 			continue
 		}
-		if fmt.Sprint(sv) != fmt.Sprint(nv) {
+		if ptrRe.ReplaceAllString(fmt.Sprint(sv), "0xPTR") != ptrRe.ReplaceAllString(fmt.Sprint(nv), "0xPTR") {
 			return fmt.Sprintf("%s: symbolic=%q native=%q", k, fmt.Sprint(sv), fmt.Sprint(nv))
 		}
 	}
